@@ -3,7 +3,7 @@
    check_case: the model computes what the implementation did.
    spec_case : what the implementation did satisfies the property, judged on the
                observations alone (no model involved). *)
-From Sdns Require Export Common.Base Gen.C11 C11.Model C11.Stream C11.Regroup C11.Shutdown C11.Flights C11.Inline.
+From Sdns Require Export Common.Base Gen.C11 C11.Model C11.Stream C11.Regroup C11.Shutdown C11.Flights C11.Inline C11.Interrupt C11.Ingress C11.Breaker.
 
 (* ---- observations ---- *)
 (* writer: per op, return class (0 nil, 1 errAlreadyWritten, 2 other error), Written() after
@@ -75,7 +75,21 @@ Inductive case :=
      per query what was observed (replies at the client socket, TC, handed off by the inline
      pass, tokens x1000 of the entry's limiter just before and after, whether the client is
      limited and tokens x60000 of its limiter before and after) *)
-| CaseInline (crate rate : Z) (nnames : nat) (qs : list iquery) (obs : list iobs).
+| CaseInline (crate rate : Z) (nnames : nat) (qs : list iquery) (obs : list iobs)
+  (* a lookup's fan-out of upstream exchanges on one real InterruptGroup (session 5): the instant
+     the lookup's context is cancelled (then Close), the exchanges' scripts, the sample instants;
+     observed per exchange: return instant, result class, SetDeadline(now) calls that reached its
+     connection, how many of them after it had returned; the slots the group held after every
+     sample instant *)
+| CaseFan (cancel : option Z) (xs : list xscript) (Ts : list Z) (obs : list xobs) (series : list nat)
+  (* dnsclient.QuestionMatches against its srcgen translation *)
+| CaseQMatch (req : T_Question) (resp : list T_Question) (obs : bool)
+  (* the header gate of the UDP ingress (session 5): raw datagrams given to the real udpEngine on
+     the ring and the inline path; per datagram what came back to the client socket *)
+| CaseIngress (ds : list gdgram) (obs : list nobs)
+  (* the resolver's per-server circuit breaker (session 5): the instant the schedule starts at
+     (unix ms), the operations, per operation what canQuery answered (true for the others) *)
+| CaseBreaker (start : Z) (ops : list bop) (obs : list bool).
 
 (* ---- helpers ---- *)
 Definition ret_code (r : wret) : N := match r with ROk => 0 | RAlready => 1 | RErr => 2 end%N.
@@ -375,6 +389,10 @@ Definition check_case (c : case) : bool :=
   | CaseInline crate rate nnames qs obs =>
       list_eqb iobs_eqb (run_inline crate rate (repeat (bk_full crate client_unit) 4)
                                     (repeat (bk_full rate entry_unit) nnames) qs) obs
+  | CaseFan cancel xs Ts obs series => fan_check cancel xs Ts obs series
+  | CaseQMatch req resp obs => Bool.eqb (go_QuestionMatches req resp) obs
+  | CaseIngress ds obs => (length ds =? length obs)%nat && forallb (fun p => ingress_check (fst p) (snd p)) (combine ds obs)
+  | CaseBreaker t0 ops obs => list_eqb Bool.eqb (snd (brun [] t0 ops)) obs
   end.
 
 Definition spec_case (c : case) : bool :=
@@ -471,4 +489,8 @@ Definition spec_case (c : case) : bool :=
          then in its entry's bucket gets exactly one, a refused one none; one question costs each
          limiter it reaches one token whatever passes it went through *)
       (length qs =? length obs)%nat && forallb iobs_spec obs
+  | CaseFan cancel xs Ts obs series => fan_spec cancel xs obs series
+  | CaseQMatch _ _ _ => true
+  | CaseIngress ds obs => (length ds =? length obs)%nat && forallb (fun p => ingress_spec (fst p) (snd p)) (combine ds obs)
+  | CaseBreaker t0 ops obs => breaker_spec t0 [] [] ops obs
   end.
